@@ -61,6 +61,8 @@ _vtool = {}
 
 
 def vtool_path(features=None):
+    if os.environ.get("VERIF_VTOOL"):
+        return os.environ["VERIF_VTOOL"]          # e.g. a coverage-instrumented build (bin/coverage)
     key = tuple(features) if features is not None else None
     if key in _vtool:
         return _vtool[key]
@@ -116,6 +118,11 @@ def expand_real(cases, repeat=0, exe=None):
                 r = json.loads(l)
                 out[r["id"]] = r
                 done += 1
+        if done == len(pending):
+            try:
+                proc.wait(timeout=10)          # stdin is closed: let it exit by itself (and flush coverage data, if instrumented)
+            except subprocess.TimeoutExpired:
+                pass
         proc.kill()
         proc.wait()
         if done < len(pending):
